@@ -120,7 +120,8 @@ let () =
           let m = List.length pssm in
           (* padding floats after the K cells of each row: stride(4, K, 32) - K *)
           let stride = ((k * 4 + 31) / 32) * 8 in
-          let pads : f32 list list = List.map (fun _ -> List.init (stride - k) (fun _ -> pad)) pssm in
+          let pad_row : f32 list = List.init (stride - k) (fun _ -> pad) in
+          let pads : nat -> f32 list = fun _ -> pad_row in
           let seq_s = if get "seq" = "-" then "" else get "seq" in
           let l = String.length seq_s in
           let s_int = List.init l (fun i -> String.index alpha seq_s.[i]) in
